@@ -144,3 +144,21 @@ V('C20-dask-set-geometry-meta-only', ['C20', 'C06'], D, "            return self
 V('C20-set-geometry-unvalidated', 'C20', GD, "        if (geometry not in self or\n                not isinstance(self[geometry].dtype, GeometryDtype)):", "        if geometry is None:", rule='C20.c')
 V('C20-ctor-no-inherit', 'C20', GD, "            if isinstance(data, GeoDataFrame) and data._has_valid_geometry():\n                geometry = data._geometry", "            if isinstance(data, GeoDataFrame) and data._has_valid_geometry():\n                geometry = first_geometry_col", rule='C20.c')
 V('C20-silent-rename-local', 'C20', SJ, "    sindex = left_df.geometry.sindex", "    left_series = left_df.geometry\n    sindex = left_series.sindex", expect='silent')
+
+# ------------------------------------------------------------------------------------------------ C06
+V('C06-area-maps-length', 'C06', D, "        return self.map_partitions(lambda s: s.area)", "        return self.map_partitions(lambda s: s.length)", rule='C06.a')
+V('C06-total-bounds-nan-propagating', ['C06', 'C13'], D, "            np.nanmin(partition_bounds['x0']),", "            np.min(partition_bounds['x0']),", rule=None, rules={'C06': 'C06.b', 'C13': 'C13.d'})
+V('C06-total-bounds-wrong-column', ['C06', 'C13'], D, "            np.nanmax(partition_bounds['x1']),", "            np.nanmax(partition_bounds['x0']),", rule=None, rules={'C06': 'C06.b', 'C13': 'C13.d'})
+V('C06-total-bounds-vectorised', ['C06'], D, "        return (\n            np.nanmin(partition_bounds['x0']),\n            np.nanmin(partition_bounds['y0']),\n            np.nanmax(partition_bounds['x1']),\n            np.nanmax(partition_bounds['y1']),\n        )",
+  "        values = partition_bounds.to_numpy()\n        return (*values[:, :2].min(axis=0), *values[:, 2:].max(axis=0))", rule='C06.b')
+V('C06-cx-enumerate', 'C06', D, "        for partition_ind, delayed_df in zip(all_partition_inds, ddf.to_delayed(), strict=True):", "        for partition_ind, delayed_df in enumerate(ddf.to_delayed()):", rule='C06.c')
+V('C06-cx-covers-only', 'C06', D, "        all_partition_inds = sorted(covers_inds.union(overlaps_inds))\n        if len(all_partition_inds) == 0:\n            # No partitions intersect with query region, return empty result\n            return dd.from_pandas(self._obj._meta, npartitions=1)\n\n        @delayed",
+  "        all_partition_inds = sorted(overlaps_inds)\n        if len(all_partition_inds) == 0:\n            # No partitions intersect with query region, return empty result\n            return dd.from_pandas(self._obj._meta, npartitions=1)\n\n        @delayed", rule='C06.c')
+V('C06-cx-refilter-swapped-box', 'C06', D, "            return df.cx[x0:x1, y0:y1]", "            return df.cx[y0:y1, x0:x1]", rule='C06.c')
+V('C06-cx-no-refilter', 'C06', D, "            if partition_ind in overlaps_inds:\n                delayed_dfs.append(\n                    cx_fn(delayed_df)\n                )\n            else:\n                delayed_dfs.append(delayed_df)", "            delayed_dfs.append(delayed_df)", rule='C06.c')
+V('C06-sjoin-skip-nan-partition', 'C06', SJ, "        right_inds = right_sindex.intersects(bounds.values)\n", "        if bounds.isna().any():\n            continue\n        right_inds = right_sindex.intersects(bounds.values)\n", rule='C06.e')
+V('C06-sjoin-left-drops-empty', 'C06', SJ, "        if how == \"left\" or len(right_inds) > 0:", "        if len(right_inds) > 0:", rule='C06.e')
+V('C06-sjoin-unfiltered-bounds', 'C06', SJ, "    partition_bounds = left_ddf.geometry.partition_bounds\n", "    partition_bounds = left_ddf[left_ddf.columns[0]].partition_bounds\n", rule='C06.e')
+V('C06-persist-like-cache-on-filter', 'C06', D, "    def _compute_packing_npartitions(self, npartitions):", "    def query(self, expr, **kwargs):\n        result = super().query(expr, **kwargs)\n        result._partition_bounds = self._partition_bounds\n        return result\n\n    def _compute_packing_npartitions(self, npartitions):", rule='C06.d')
+V('C06-silent-rename', 'C06', D, "        for partition_ind, delayed_df in zip(all_partition_inds, ddf.to_delayed(), strict=True):\n            if partition_ind in overlaps_inds:\n                delayed_dfs.append(\n                    cx_fn(delayed_df)\n                )\n            else:\n                delayed_dfs.append(delayed_df)",
+  "        for pnum, part in zip(all_partition_inds, ddf.to_delayed(), strict=True):\n            if pnum in overlaps_inds:\n                delayed_dfs.append(\n                    cx_fn(part)\n                )\n            else:\n                delayed_dfs.append(part)", expect='silent')
